@@ -269,8 +269,18 @@ pub fn run(seed: u64, tier: &str, out: &mut dyn FnMut(String)) {
         }
         seq.push(SymOp::Snapshot);
         let (o, d, w) = *r.pick(&edges);
-        match r.below(6) {
+        match r.below(8) {
             0 => {}
+            6 | 7 => {
+                // the same edge set, rebuilt in another order: remove an edge, add another one to the same
+                // destination, put the first one back (incoming lists now differ in order, not in content)
+                let o2 = r.below(k as u64) as i64;
+                seq.push(SymOp::RemoveEdge(o, d));
+                if o2 != o {
+                    seq.push(SymOp::AddEdge(o2, d, 0.5));
+                }
+                seq.push(SymOp::AddEdge(o, d, w));
+            }
             1 | 2 => seq.push(SymOp::SetWeight(o, d, f32::from_bits(w.to_bits().wrapping_add(1)))),
             3 => seq.push(SymOp::SetWeight(o, d, w)),
             4 => seq.push(SymOp::SetState(o, r.range(-1, 3) as i32)),
